@@ -8,6 +8,23 @@ CHECKS = {
    text='Bounded-exhaustive: TLC enumerates every netlist of the universe U(2,2,18 types,arity<=3) (thorough: also U(3,3,T6,2), U(3,2,18,3)); each is built in the real library (plain / relabelled / non-topological storage), all 2^n rows are pushed through all seven evaluation entry points and TLC judges every recorded value against the denotational semantics (GateSet/GateTT of the specification); plus seeded random circuits up to 6 inputs / 30 gates / arity 5 and per-type operator tables. GateLemmas.tla proves (exhaustively, arity<=4) that the row-set, three-valued, bench-rewrite and truth-table-code renderings denote the one GateFn.',
    note='Trusted: TLC, the specification modules GateSemantics/CircuitSem, the recorder (transcribes return values only). CNF templates, synthesis codes and pattern simulation are bound in C05/C06/C04 rather than here.',
    tech='TLA+ reference semantics; TLC-enumerated circuits replayed into cirbo; recorded evaluations validated by a TLC trace specification'),
+
+ 'C02': dict(cat='model_checking', ref='5 (C02)',
+   text='CircuitAPI.tla models every public mutator (validation = enabling condition, users index updated incrementally exactly where the code does); TLC checks WF1-WF6 in every reachable state within the bounds and prints every transition as the call history reaching it; each history (plus tlc -simulate behaviours over 18 types and seeded adaptive random histories with invalid arguments, right-connection, replace_subcircuit, slices, copy) is replayed call by call into cirbo, and a TLC trace specification judges WF1-WF6, both top_sort directions and copy equality/independence on the projected real state after every call; agreement of the real next state with the model is reported as drift.',
+   note='Trusted: TLC, projection (public accessors only), replay glue. Bounded exhaustive (Pool5, T6, <=3(+2) gates, depth 3 quick / 4 thorough), sampled beyond.',
+   tech='TLA+ state machine of the Circuit API model-checked by TLC; every TLC transition replayed into cirbo; recorded states validated by a TLC trace specification'),
+ 'C10': dict(cat='model_checking', ref='5 (C10)',
+   text='All connect transitions of the CircuitAPI exploration, thousands of TLC-enumerated circuit pairs with seed-chosen connectors (internal gates, repeated connectors, partial lists, six entry points, naming/prefix) and random repeated compositions are replayed into cirbo; TLC evaluates the two-stage denotational composition (independent of how the code splices) and judges interface, truth table, non-modification of the attached circuit and block re-extraction.',
+   note='Trusted: TLC, CircuitSem/JudgeHist.C10Expected, projection. Region left unjudged: right-connection pairing one primary input of the attached circuit with several base inputs; block re-extraction only for repeat-free connectors.',
+   tech='TLA+ denotational composition evaluated by TLC on recorded connect calls generated from the TLC-explored API model'),
+ 'C14': dict(cat='model_checking', ref='5 (C14)',
+   text='into_bench is replayed on every TLC-enumerated universe circuit over all 18 types (with blocks, repeated outputs) and on API-model transitions and random histories; TLC judges interface, truth tables of all original gates, remaining type set, well-formedness (users index) and block membership of helper gates; into_graphviz_digraph(as_bench=True) must leave its receiver unchanged. GateLemmas.RewriteKeeps proves the rewrite table at the gate level.',
+   note='Trusted: TLC, CircuitSem, projection. Circuits with constants but no input are outside the property.',
+   tech='TLC-enumerated circuits replayed into cirbo; recorded conversions validated by a TLC trace specification'),
+ 'C19': dict(cat='model_checking', ref='5 (C19)',
+   text='rename_gate / replace_inputs / remove_gate transitions of the exhaustive CircuitAPI exploration, universe circuits with one rewrite each, and random histories rich in replace_subcircuit (cut-bounded cones replaced by equivalent relabelled copies) are replayed into cirbo; TLC judges isomorphism under the label substitution, the cofactor identity over the remaining inputs, the removal rule, and function + well-formedness (or a documented error) after replacement.',
+   note='Trusted: TLC, CircuitOps.DoRename as the meaning of "every reference follows", projection. Replacement subcircuits are equivalent by construction.',
+   tech='TLA+ action properties evaluated by TLC on recorded rewrite calls generated from the TLC-explored API model'),
 }
 PENDING = 'check not built yet in this round (work in progress; see DESIGN.md section 5)'
 m = {
